@@ -639,7 +639,7 @@ class C13(PropBase):
         dist["cfi_early_exit_after_push"] = n_fam
         dist["public_aliases_same_address"] = n_fam
         dist["key_dictionary"] = keys
-        n_deep = 4 if tier == "quick" else 30
+        n_deep = 4 if tier == "quick" else 16
         for _ in range(n_deep):
             cases.append(self.deep_threads_case(rng) if tier == "quick" else self.deep_threads_case(rng, 17000, 40000))
         dist["deep_threads_shared_budget"] = n_deep
